@@ -109,6 +109,7 @@ fn main() {
                 }
             }
         }
+        "c19child" => props::c19::child_main(args.get(2).map(|s| s.as_str()).unwrap_or("")),
         "run" => {
             // debug aid: evaluate the forms of a file, optionally sliced: mwv run file.scm [budget ...]
             sut::install_panic_hook();
